@@ -21,6 +21,8 @@
 #include "esl_normal.h"
 #include "esl_stats.h"
 
+#define MAXBINS 1000000		/* won't make a histogram that needs more bins than this for a data value */
+
 static char banner[] = "collate a data histogram, output xmgrace datafile";
 
 static char usage[] = "[-options] <datafile>";
@@ -145,6 +147,11 @@ main(int argc, char **argv)
     if (ofp == NULL) esl_fatal("Failed to open output xmgrace data file %s\n", outfile);
   }
 
+  if (! isfinite(hmin) || ! isfinite(hmax) || ! isfinite(hbinsize))
+    esl_fatal("--min, --max and -w must be finite numbers\n");
+  if ((hmax-hmin)/hbinsize < 1. || (hmax-hmin)/hbinsize > MAXBINS)
+    esl_fatal("--min %g, --max %g must span at least 1 and at most %d bins of size -w %g\n", hmin, hmax, MAXBINS, hbinsize);
+
   h = esl_histogram_CreateFull(hmin,hmax,hbinsize);
   if (h == NULL) esl_fatal("Failed to create histogram");
 
@@ -156,7 +163,11 @@ main(int argc, char **argv)
   if (esl_opt_GetBoolean(go, "-b"))
     {
       while (fread(&x, sizeof(double), 1, ifp) == 1)
-	esl_histogram_Add(h, x);
+	{
+	  if (! isfinite(x) || fabs((x-hmin)/hbinsize) > MAXBINS)
+	    esl_fatal("data value %g is not finite or needs more than %d bins of size -w %g from --min %g\n", x, MAXBINS, hbinsize, hmin);
+	  esl_histogram_Add(h, x);
+	}
     } 
   else 
     {
@@ -178,6 +189,8 @@ main(int argc, char **argv)
 	    }
 	  if (tok != NULL) {
 	    x = atof(tok);
+	    if (! isfinite(x) || fabs((x-hmin)/hbinsize) > MAXBINS)
+	      esl_fatal("data value %g is not finite or needs more than %d bins of size -w %g from --min %g\n", x, MAXBINS, hbinsize, hmin);
 	    esl_histogram_Add(h, x);
 	  }
 	}
